@@ -13,6 +13,7 @@ filtered value, `(filter t v).2 ∈ {ok, soft, fatal}` the error class.
 -/
 import Martian.Types
 import Proofs.Types
+import Gen.Facts
 
 namespace Props.C17
 open Martian.Json Martian.Types
@@ -32,6 +33,26 @@ private abbrev tA : Ty := .struct [0x41] (.cons ka (.base .int) .nil)
 private abbrev tN : Ty :=
   .struct [0x4E] (.cons ka tA (.cons kb (.tmap (.arr (.base .int)))
     (.cons kx (.arr (.arr (.base .file))) .nil)))
+
+/-! ### 0. regenerated obligations: the model's builtin tables are the ones in
+martian/syntax/builtin_types.go of the current tree (`Gen.*` is re-extracted on every run) -/
+
+/-- the builtin kinds are exactly `builtinTypes`, in order -/
+theorem builtin_kinds_ok : Gen.builtinKinds = Base.all.map Base.name := by decide
+
+/-- builtin ← builtin assignability is the `case *BuiltinType:` condition of
+`BuiltinType.IsAssignableFrom`, evaluated for all 49 pairs -/
+theorem builtin_assign_table_ok :
+    ∀ d ∈ Base.all, ∀ s ∈ Base.all,
+      assignableBase d s = Gen.builtinAssign.contains (d.name, s.name) := by decide
+
+/-- `BuiltinType.IsFile` -/
+theorem builtin_fileKind_table_ok :
+    Base.all.map (fun b => (b.name, (fileKind (.base b)).rank)) = Gen.builtinFileKinds := by decide
+
+/-- `BuiltinType.CanFilter` -/
+theorem builtin_canFilter_table_ok :
+    (Base.all.filter (fun b => canFilter (.base b))).map Base.name = Gen.builtinCanFilter := by decide
 
 /-! ### 1. filtering is idempotent -/
 
